@@ -127,6 +127,14 @@ func drawProgram(t *rapid.T) *pkgProg {
 		out.plugins[dc.Kind] = true
 		out.calls = append(out.calls, dc.Kind+":"+dc.Type.Str(p.Q()))
 	}
+	// p and q derive over the same function type and the same unnamed struct type, which mention a type of p: each
+	// package has to spell them from where it stands, whatever the other package of the invocation printed before
+	shared := rapid.Bool().Draw(t, "shared-shapes")
+	if shared {
+		p.Add("func MemShared(f func(*TieS, int) int) func(*TieS, int) int {\n\treturn deriveMemShared(f)\n}\n")
+		p.Add("func EqShared(a, b struct {\n\tA *TieS\n\tB int\n}) bool {\n\treturn deriveEqualShared(a, b)\n}\n")
+		out.calls = append(out.calls, "mem:func(*TieS, int) int", "equal:struct{A *TieS; B int}")
+	}
 	// the calls of p sit in one to three files (which file is parsed first is up to the loader)
 	p.SplitCalls = rapid.IntRange(1, 3).Draw(t, "callfiles")
 	p.RenameSplit = p.SplitCalls > 1 && rapid.Bool().Draw(t, "renamesplit")
@@ -137,6 +145,10 @@ func drawProgram(t *rapid.T) *pkgProg {
 	qs.WriteString("func EqTie(a, b *p.TieS) bool {\n\treturn deriveEqual(a, b)\n}\n\n")
 	qs.WriteString("func HashTie(a *p.TieS) uint64 {\n\treturn deriveHash(a)\n}\n\n")
 	qs.WriteString("func SortInts(l []int) []int {\n\treturn deriveSort(l)\n}\n")
+	if shared {
+		qs.WriteString("\nfunc MemShared(f func(*p.TieS, int) int) func(*p.TieS, int) int {\n\treturn deriveMem(f)\n}\n")
+		qs.WriteString("\nfunc EqShared(a, b struct {\n\tA *p.TieS\n\tB int\n}) bool {\n\treturn deriveEqualS(a, b)\n}\n")
+	}
 	files["q/q.go"] = qs.String()
 	out.files = files
 	return out
